@@ -71,9 +71,11 @@ func (pj *internalParsedJson) findStructuralIndices() bool {
 		index := indexChan{}
 		offset := atomic.AddUint64(&pj.buffersOffset, 1)
 		index.indexes = &pj.buffers[offset%indexSlots]
+		simHook(simPAcquire, pj, int(offset%indexSlots))
 
 		// In case last index during previous round was stripped back, put it back
 		if stripped_index != ^uint64(0) {
+			simProbe(simProbeStrippedCarry)
 			position += stripped_index
 			index.indexes[0] = uint32(stripped_index)
 			index.length = 1
@@ -95,6 +97,7 @@ func (pj *internalParsedJson) findStructuralIndices() bool {
 
 		// Check if we have at most a single iteration of 64 bytes left, tag on to previous invocation
 		if uint64(len(buf))-processed <= 64 {
+			simProbe(simProbePaddedTail)
 			// Process last 64 bytes in larger buffer (to safeguard against reading beyond the end of the buffer)
 			paddedBuf := [128]byte{}
 			copy(paddedBuf[:], buf[processed:])
@@ -135,13 +138,16 @@ func (pj *internalParsedJson) findStructuralIndices() bool {
 			index.length -= 1
 		}
 
+		simHook(simPSend, pj, index.length)
 		pj.indexChans <- index
 		indexTotal += index.length
 
 		buf = buf[processed:]
 		position -= processed
 	}
+	simHook(simPSend, pj, -1)
 	pj.indexChans <- indexChan{index: -1}
+	simHook(simPDone, pj, 0)
 
 	// a valid JSON file cannot have zero structural indexes - we should have found something
 	return error_mask == 0 && indexTotal > 0
